@@ -37,6 +37,49 @@ def fail(pid, op, observed, **kw):
     raise Fail(d)
 
 
+class Dribble(io.RawIOBase):
+    """A raw stream that, like a slow pipe, hands out at most `piece` bytes per low-level read."""
+
+    def __init__(self, data, piece=3):
+        self.d, self.i, self.piece = data, 0, piece
+
+    def readable(self):
+        return True
+
+    def readinto(self, b):
+        k = min(len(b), self.piece, len(self.d) - self.i)
+        b[:k] = self.d[self.i:self.i + k]
+        self.i += k
+        return k
+
+
+def slow_stdin(data, piece=3):
+    return type("S", (), {"buffer": io.BufferedReader(Dribble(data, piece))})()
+
+
+def fifo_regions(data, sr, sw, ch, **kw):
+    """split() on a raw 'file' that is a named pipe fed in small, sample-unaligned pieces."""
+    import threading
+    from auditok import split
+    d = tempfile.mkdtemp(prefix="fifo-")
+    p = os.path.join(d, "in.raw")
+    os.mkfifo(p)
+
+    def feed():
+        with open(p, "wb", buffering=0) as f:
+            for i in range(0, len(data), 7):
+                f.write(data[i:i + 7])
+                time.sleep(0.002)
+    t = threading.Thread(target=feed, daemon=True)
+    t.start()
+    try:
+        return [(round(r.start * 1e6), bytes(r)) for r in split(p, sr=sr, sw=sw, ch=ch, large_file=True, audio_format="raw", **kw)]
+    finally:
+        t.join(5)
+        os.remove(p)
+        os.rmdir(d)
+
+
 def sample_bytes(val, sw):
     if sw == 1:
         return struct.pack("<b", max(-128, min(127, val >> 8)))
@@ -144,23 +187,31 @@ def search_C05_C06(pid, budget):
             fail(pid, "split-args", "no ValueError", args=[mn, mx, ms, aw])
         except ValueError:
             pass
-    for (sr, aw) in ((10, 0.1), (1000, 0.01), (100, 0.05), (10, 0.25), (22050, 0.05), (50, 0.02), (1, 1),
-                     (48000, 1024 / 48000), (48000, 256 / 48000), (3, 1 / 3)):
-        wdurs = [(10 * aw, 10 * aw, 0.0), (4 * aw, 9 * aw, 2 * aw), (3 * aw, 3 * aw, aw)] if aw not in (0.1, 0.01, 0.05, 0.25, 0.02, 1) else []
-        for (mn, mx, ms) in durs + wdurs:
-            if mn < aw / 2 and mx < aw:
-                continue
-            for (sw, ch) in ((2, 1), (1, 2), (4, 3)):
-                for drop, strict in ((False, False), (True, False), (False, True), (True, True)):
-                    for tail in (0, 1):
-                        if tail and int(aw * sr) < 2:
-                            continue
-                        for via in ("bytes", "region", "region+kwargs"):
-                            for pat in pats[(n % 7)::7][:6]:
-                                n += 1
-                                check_split_case(pid, pat, sr, aw, sw, ch, mn, mx, ms, drop, strict, tail and 1, via)
-                        if time.time() - t0 > budget:
-                            return n
+    # a threshold of 0 dB is a threshold, not "use the default"
+    import struct
+    faint, zero = struct.pack("<10h", *([3, -3] * 5)), bytes(20)
+    for pat in ("zzFFFFzzzFFFzz", "FFFF", "zFz"):
+        for key in ("energy_threshold", "eth"):
+            n += 1
+            d = b"".join(faint if c == "F" else zero for c in pat)
+            exp = expected_regions(len(pat), pat.replace("F", "A").replace("z", "a"), 0.02, 0.1, 0.0, 0.01, False, False)
+            regs = list(split(d, sr=1000, sw=2, ch=1, min_dur=0.02, max_dur=0.1, max_silence=0.0, analysis_window=0.01, **{key: 0}))
+            got = [(round(r.start * 100), round(r.start * 100) + -(-len(r) // 10) - 1) for r in regs]
+            if got != exp:
+                fail(pid, "split", "%s=0 on faint (amplitude 3, about 9.5 dB) windows: regions %r, the windows at or above 0 dB give %r" % (
+                    key, got, exp), pattern=pat)
+    # lazily read raw input that arrives slowly (named pipe): same regions as the bytes
+    n += 1
+    d = synth("aAAAAaaAAAaa", 10, 2, 1)
+    kwf = dict(min_dur=0.02, max_dur=0.1, max_silence=0.01, analysis_window=0.01)
+    exp = [(round(r.start * 1e6), bytes(r)) for r in split(d, sr=1000, sw=2, ch=1, **kwf)]
+    try:
+        got = fifo_regions(d, 1000, 2, 1, **kwf)
+    except Exception as e:  # noqa
+        fail(pid, "split", "raw input read lazily from a slow named pipe: split raised %s: %s" % (type(e).__name__, e))
+    if got != exp:
+        fail(pid, "split", "raw input read lazily from a slow named pipe: %d regions starting at %r; the same bytes give %d starting at %r" % (
+            len(got), [g[0] for g in got], len(exp), [e[0] for e in exp]))
     # reader input: w is the reader's block duration
     from auditok import AudioReader, split
     for sr, bd in ((10, 0.25), (22050, 0.01), (10, 0.1)):
@@ -179,6 +230,35 @@ def search_C05_C06(pid, budget):
                 if got != exp:
                     fail(pid, "split-reader", "regions %r, expected %r (w = reader block duration %r)" % (got, exp, w),
                          pattern=pat, sr=sr, block_dur=bd, min_dur=mn, max_dur=mx)
+                # an analysis_window keyword next to a reader input does not change w
+                for key in ("analysis_window", "aw"):
+                    n += 1
+                    try:
+                        regs = list(split(AudioReader(data, block_dur=bd, sr=sr, sw=2, ch=1), min_dur=mn, max_dur=mx, max_silence=0,
+                                          **{key: bd / 2.5}))
+                    except ValueError:
+                        regs = None
+                    got = None if regs is None else [(round(r.start * sr / B), round(r.start * sr / B) + -(-len(r) // B) - 1) for r in regs]
+                    if got != exp:
+                        fail(pid, "split-reader", "with %s=%r next to a reader input: regions %r, expected %r (w = reader block duration %r)" % (
+                            key, bd / 2.5, got, exp, w), pattern=pat, sr=sr, block_dur=bd, min_dur=mn, max_dur=mx)
+    for (sr, aw) in ((10, 0.1), (1000, 0.01), (100, 0.05), (10, 0.25), (22050, 0.05), (50, 0.02), (1, 1),
+                     (48000, 1024 / 48000), (48000, 256 / 48000), (3, 1 / 3)):
+        wdurs = [(10 * aw, 10 * aw, 0.0), (4 * aw, 9 * aw, 2 * aw), (3 * aw, 3 * aw, aw)] if aw not in (0.1, 0.01, 0.05, 0.25, 0.02, 1) else []
+        for (mn, mx, ms) in durs + wdurs:
+            if mn < aw / 2 and mx < aw:
+                continue
+            for (sw, ch) in ((2, 1), (1, 2), (4, 3)):
+                for drop, strict in ((False, False), (True, False), (False, True), (True, True)):
+                    for tail in (0, 1):
+                        if tail and int(aw * sr) < 2:
+                            continue
+                        for via in ("bytes", "region", "region+kwargs"):
+                            for pat in pats[(n % 7)::7][:6]:
+                                n += 1
+                                check_split_case(pid, pat, sr, aw, sw, ch, mn, mx, ms, drop, strict, tail and 1, via)
+                        if time.time() - t0 > budget:
+                            return n
     return n
 
 
@@ -305,6 +385,15 @@ def search_C09(pid, budget):
                     finally:
                         sys.stdin = old
                 variants["stdin"] = stdin_variant
+
+                def slow_stdin_variant():
+                    old = sys.stdin
+                    sys.stdin = slow_stdin(data)
+                    try:
+                        return regions_of("-", sr=sr, sw=sw, ch=ch, **kw)
+                    finally:
+                        sys.stdin = old
+                variants["stdin fed by a slow pipe (3 bytes per low-level read)"] = slow_stdin_variant
                 for name, f in variants.items():
                     n += 1
                     try:
@@ -509,13 +598,13 @@ def search_C11(pid, budget):
                     if kind == "wave":
                         return WaveAudioSource(wavp)
                     old = sys.stdin
-                    sys.stdin = type("S", (), {"buffer": io.BytesIO(data)})()
+                    sys.stdin = slow_stdin(data) if kind == "stdin-slow-pipe" else type("S", (), {"buffer": io.BytesIO(data)})()
                     try:
                         return StdinAudioSource(sr, sw, ch)
                     finally:
                         sys.stdin = old
-                for kind in ("buffer", "raw", "wave", "stdin"):
-                    sizes = [0, 1, 2, 3, ns, ns + 2] + ([] if kind == "stdin" else [-1, None])
+                for kind in ("buffer", "raw", "wave", "stdin", "stdin-slow-pipe"):
+                    sizes = [0, 1, 2, 3, ns, ns + 2] + ([] if kind.startswith("stdin") else [-1, None])
                     for seq in itertools.product(sizes, repeat=3):
                         n += 1
                         src = mk(kind)
